@@ -144,6 +144,7 @@ Proof.
                match f with
                | FwdNone | FwdOpen => RStream tr None
                | FwdClose k => RStream (fst (forward_to (N.to_nat k) tr)) (snd (forward_to (N.to_nat k) tr))
+               | FwdTake n => RStream (consumer_take (N.to_nat n) tr) None
                end) = true).
   { intros s' Hnf ->. cbv zeta.
     assert (E : prop_rec pol o h f s =
@@ -162,6 +163,10 @@ Proof.
              | None => Nat.leb (length (spec_outputs o h s)) (N.to_nat k)
              | Some _ => Nat.ltb (N.to_nat k) (length (spec_outputs o h s))
              end)
+        | FwdTake n =>
+            onat_eqb done None &&
+            ev_list_eqb (outputs tr) (firstn (N.to_nat n) (spec_outputs o h s)) &&
+            prefix_b (handled tr) (spec_handled o h s)
         end
       | _ => false end).
     { unfold prop_rec. destruct s as [|[lat|lat items tail] r]; try reflexivity.
@@ -177,7 +182,17 @@ Proof.
       destruct (full_head pol o (wait pol 0) 0 s h) as [rest Eh].
       pose proof (walk_ok pol o h s 0%nat 0) as W. rewrite Eh in *.
       cbn [first_attempt_at_0 andb]. exact W. }
-    rewrite E. destruct f as [| |k].
+    rewrite E. destruct f as [| |k|n]; [| | |
+      cbn [onat_eqb andb];
+      destruct (handled_prefix _ _ (consumer_take_prefix (Hh h (stream_trace pol o s)) (N.to_nat n)))
+        as [rest Hp];
+      rewrite spec_handled_ok in Hp; rewrite Hp, prefix_b_app;
+      unfold stream_trace; change (p_initial pol) with (wait pol 0);
+      fold (full pol o (wait pol 0) 0 s);
+      destruct (full_head pol o (wait pol 0) 0 s h) as [rest' Eh]; rewrite Eh;
+      rewrite consumer_take_outputs, <- Eh;
+      unfold full; change (wait pol 0) with (p_initial pol);
+      fold (stream_trace pol o s); rewrite spec_outputs_ok, ev_list_eqb_refl; reflexivity].
     - cbn [onat_eqb andb]. exact Hfull.
     - cbn [onat_eqb andb]. exact Hfull.
     - rewrite forward_outputs, spec_outputs_ok, ev_list_eqb_refl. cbn [andb].
